@@ -53,4 +53,16 @@ Proof.
   rewrite (nth_zipw f acc i e z z z) by lia. reflexivity.
 Qed.
 
+(* ---------- what a caller gets by leaving the optional constructor / partialconstructor arguments out: the values the
+   C04 harness hard-codes for omitted arguments (tools/props/c04.py DEFAULTS).  Each class's generated defaults are
+   proved equal to these in its own tie file, so a changed default breaks that class's obligation. *)
+Definition mode_of_code (n : nat) : imode := match n with 0 => IPrevious | _ => INearest end.
+Definition dflt_mode : imode := IPrevious.
+Definition dflt_delay : A := zero NM.
+Definition dflt_tol : A := zero NM.
+Definition dflt_cur_ob : option A := Some (zero NM).
+Definition dflt_spk_ob : option bool := Some false.
+Definition dflt_batch : nat := 1.
+Definition dflt_inplace : bool := false.
+
 End GenTie.
